@@ -1103,7 +1103,14 @@ def _ensure_function_variant(
         "_refreshing_functions", set()
     )
     key = (name, signature)
+    unresolved: Set[Tuple[str, Tuple[str, ...]]] = ctx.setdefault(
+        "_unresolved_variant_uses", set()
+    )
     if key in refreshing:
+        # A recursive call of a variant that is still being analysed: its result
+        # type is not known yet, so every variant on the analysis stack may have
+        # been typed too narrowly.
+        unresolved.update(refreshing)
         return defs.get(name, {}).get(canonical)
 
     refreshing.add(key)
@@ -1112,6 +1119,34 @@ def _ensure_function_variant(
         _parse_function(name, params_src, list(block), ctx, forced_signature=signature)
     finally:
         refreshing.remove(key)
+
+    if not refreshing and unresolved:
+        # Result types only widen (int -> float): analyse the variants that used
+        # an unknown result again until nothing changes any more.
+        functions_map = ctx.get("functions", {})
+        for _ in range(4):
+            todo = sorted(unresolved)
+            unresolved.clear()
+            before = {n: dict(v) for n, v in functions_map.items() if isinstance(v, dict)}
+            for other_name, other_signature in todo:
+                other_key = (other_name, other_signature)
+                refreshing.add(other_key)
+                try:
+                    other_params, other_block = sources[other_name]
+                    _parse_function(
+                        other_name,
+                        other_params,
+                        list(other_block),
+                        ctx,
+                        forced_signature=other_signature,
+                    )
+                finally:
+                    refreshing.discard(other_key)
+            after = {n: dict(v) for n, v in functions_map.items() if isinstance(v, dict)}
+            if after == before:
+                break
+            unresolved.update(todo)
+        unresolved.clear()
 
     defs = ctx.get("function_defs", {})
     canonical = _resolve_signature_alias(name, signature, ctx)
